@@ -861,3 +861,68 @@ func dependsOn(v, w ssa.Value, d int) bool {
 	}
 	return false
 }
+
+// assembledStrings enumerates the texts a string value can be assembled to: concatenations in order, one alternative per
+// incoming edge of a phi (cycles cut), Sprintf by its format, anything else as "\x00". At most max alternatives.
+func assembledStrings(v ssa.Value, max int) []string {
+	var build func(v ssa.Value, onPath map[ssa.Value]bool, d int) []string
+	build = func(v ssa.Value, onPath map[ssa.Value]bool, d int) []string {
+		if v == nil || d > 40 || onPath[v] {
+			return []string{"\x00"}
+		}
+		switch x := v.(type) {
+		case *ssa.Const:
+			if s, ok := constString(x); ok {
+				return []string{s}
+			}
+		case *ssa.BinOp:
+			if x.Op == token.ADD {
+				var out []string
+				for _, a := range build(x.X, onPath, d+1) {
+					for _, b := range build(x.Y, onPath, d+1) {
+						if len(out) < max {
+							out = append(out, a+b)
+						}
+					}
+				}
+				return out
+			}
+		case *ssa.Phi:
+			onPath[v] = true
+			var out []string
+			for _, e := range x.Edges {
+				for _, s := range build(e, onPath, d+1) {
+					if len(out) < max {
+						out = append(out, s)
+					}
+				}
+			}
+			delete(onPath, v)
+			return out
+		case *ssa.Call:
+			if objIs(calleeObj(&x.Call), "fmt", "", "Sprintf") && len(x.Call.Args) > 0 {
+				return build(x.Call.Args[0], onPath, d+1)
+			}
+		case *ssa.UnOp:
+			if al, ok := x.X.(*ssa.Alloc); ok && x.Op == token.MUL {
+				onPath[v] = true
+				var out []string
+				for _, r := range *al.Referrers() {
+					if st, ok := r.(*ssa.Store); ok && st.Addr == ssa.Value(al) {
+						for _, s := range build(st.Val, onPath, d+1) {
+							if len(out) < max {
+								out = append(out, s)
+							}
+						}
+					}
+				}
+				delete(onPath, v)
+				if len(out) > 0 {
+					return out
+				}
+			}
+		}
+		return []string{"\x00"}
+	}
+	return build(v, map[ssa.Value]bool{}, 0)
+}
